@@ -164,6 +164,36 @@ def program_tie(chk, binary, items, corr_bad):
     return len(terms)
 
 
+def indent_tie(chk, binary, corr_bad):
+    """Coq writer model with indent()/dedent() commands vs the real formatter on deeply nested blocks (default width)."""
+    depths = [1, 2, 15, 16, 17, 18, 31, 32, 33, 64, 65, 100]
+    srcs = [c08.nest_blocks(d, ["if"]) for d in depths]
+    res = c08.run_decls(binary, srcs, text=True)
+    terms, wants = [], []
+    for d, r in zip(depths, res):
+        if r.get("parse") != "ok" or "text" not in r["whole"]:
+            raise vlib.Infra("indent tie: nested source does not format: %s" % (r.get("parse"),))
+        want = r["whole"]["text"]
+        w = lambda t: "W %s; NL" % vlib.zlist([ord(c) for c in t])
+        cmds = [w("def f(x: int, xs: List[int]) -> int:"), "IN"]
+        for i in range(d):
+            cmds += [w("if x > %d:" % i), "IN"]
+        cmds += [w("x = x + 1")] + ["DE"] * d + [w("return x"), "DE"]
+        terms.append("fmt_text [{| d_cmds := [%s]; d_doc := false |}]" % "; ".join(cmds))
+        wants.append([ord(c) for c in want])
+    req = "From Coq Require Import ZArith List.\nImport ListNotations.\nFrom Verif Require Import C09.Model.\nOpen Scope Z_scope."
+    got = vlib.coq_eval(req, "list Z", "fun x => x", terms, shard=4, tag="c09indent")
+    for d, src, w_, g in zip(depths, srcs, wants, got):
+        chk.count_case(("indent-tie", d), nontrivial=True)
+        if list(g) != w_:
+            m = "".join(chr(c) for c in g).split("\n")
+            r_ = "".join(chr(c) for c in w_).split("\n")
+            first = next((i for i, (a, b) in enumerate(zip(m, r_)) if a != b), min(len(m), len(r_)))
+            corr_bad.append({"why": "writer model (level n = n*4 spaces) and the formatter disagree at block depth %d" % d, "source": src,
+                             "line": first + 1, "model_line": m[first] if first < len(m) else None, "impl_line": r_[first] if first < len(r_) else None})
+    return len(terms)
+
+
 def witness_fails_c09(known, c08_known):
     def judge(f, r):
         for d in r["decls"]:
@@ -228,6 +258,7 @@ def run(chk):
                 fails.append({"origin": origin, "source": src, "why": "fmt(fmt(x)) fails or differs"})
     n_cli = cli_scenarios(chk, binary, items, known, c08_known, fails, corr_bad)
     n_prog = program_tie(chk, binary, items, corr_bad)
+    n_prog += indent_tie(chk, binary, corr_bad)
     chk.coverage["rule"] = ("one evaluation per top-level declaration of every corpus file and generated program (idempotence + hygiene), one per CLI run "
                             "(6 runs x 2 directories), one per program-tie case; non-trivial = the formatted text re-parses")
     chk.coverage["distribution"] = dict(sorted(dist.items(), key=lambda kv: -kv[1])[:40])
